@@ -302,7 +302,7 @@ impl<'a> Session<'a> {
         match a {
             AddrSpec::Base(p, s) => self.cred_ok(p) && self.cred_ok(s),
             AddrSpec::Ent(p) | AddrSpec::Ptr(p, ..) | AddrSpec::Reward(p) => self.cred_ok(p),
-            AddrSpec::Byron(_) => true,
+            AddrSpec::Byron(_) | AddrSpec::ByronPath(..) => true,
         }
     }
     fn out_ok(&self, o: &OutSpec) -> bool {
@@ -818,6 +818,7 @@ impl<'a> Session<'a> {
                 let val = self.w.value(ut.coin, &ut.assets);
                 match &ut.addr {
                     AddrSpec::Byron(k) => self.inb.add_bootstrap_input(&byron(*k, self.w.magic).addr, &input, &val),
+                    AddrSpec::ByronPath(k, l) => self.inb.add_bootstrap_input(&byron_with_path(*k, self.w.magic, *l).addr, &input, &val),
                     a => match a.pay_cred() {
                         Some(Cred::Key(k)) => self.inb.add_key_input(&key(*k).hash, &input, &val),
                         _ => return Res::Skipped("legacy input needs key or byron owner"),
